@@ -96,6 +96,21 @@ def check_case(spec: dict) -> dict:
             return t[len(parent) + 1:] if M.is_strict_desc(t, parent) and M.is_self_or_desc(t, sub) else t
 
         with Project(root, PS.render_files(spec, rename_target=rel_name), spec["dirs"]) as pr2:
+            # the directories next to module_path are scanned first (same parent, so the same short names occur with
+            # another meaning): each must be the restriction of the whole scan, and must leave the scan of module_path alone
+            par = sub_rel.rsplit("/", 1)[0] if "/" in sub_rel else ""
+            for sib in [d for d in spec["dirs"] if d != sub_rel and (d.rsplit("/", 1)[0] if "/" in d else "") == par][:2]:
+                sres = scan_outcome(pr2.path(), pr2.path(sib))
+                sdot = PS.dotted(root, sib)
+                recurs = any(part == root for rel in list(spec["dirs"]) + [f[:-3] for f in spec["pyfiles"]] for part in rel.split("/"))
+                if sres[0] == "ok" and full[0] == "ok" and not recurs:  # (a recurring root name gives texts with two readings)
+                    wm_s, wi_s = PS.restrict(mods, imps, sdot)
+                    short_targets = {t for _, t in spec.get("imports", []) if rel_name(t) != t}
+                    wi_s = {(u, w) for u, w in wi_s if w not in short_targets}
+                    got_i = {(u, w) for u, w in PS.drop_ancestor_imports(sres[1][1]) if w not in short_targets}
+                    if set(sres[1][0]) != wm_s or got_i - ignore != wi_s - ignore:
+                        v("sibling-sub-scan-differs", f"module_path={sdot} (scanned before {sub}): modules {sorted(sres[1][0])} imports {sorted(got_i)} "
+                          f"!= restriction {sorted(wm_s)} {sorted(wi_s)}")
             alt = scan_outcome(pr2.path(), pr2.path(sub_rel))
 
         # third rendering: 'from <package relative to module_path's parent> import <last component>'
